@@ -407,7 +407,9 @@ def check_marg3d(case, ctx):
         return
     if ok:
         got = np.asarray(got, dtype=float)
-        if got.shape != (1,) or not close(got, [ref], 1e-4, 1e-7).all():
+        # nested nquad: every inner integral is only good to its absolute tolerance 1.49e-8, integrated over an outer
+        # range of length ~10-30 (observed 4.5e-7 absolute on a value of 1.9e-3)
+        if got.shape != (1,) or not close(got, [ref], 2e-4, 2e-6).all():
             ctx.violation(f"marginal_pdf:3d:dim{dim}:{refmodel.structure_name(spec)}", f"dim={dim} x={x.tolist()} got={got.tolist()} reference={ref!r} conditional_on={[l.get('conditional_on') for l in spec]}")
 
 
